@@ -5,7 +5,7 @@ from oracle_util import *  # noqa
 from protocol import from_real
 
 ID = "C18"
-LEAN_MODULE = ["SCoda.Props.C18", "SCoda.Props.Notes", "SCoda.Props.Gaps", "SCoda.Props.WrapTie"]
+LEAN_MODULE = ["SCoda.Props.C18", "SCoda.Props.Notes", "SCoda.Props.Gaps", "SCoda.Props.WrapTie", "SCoda.Props.ViewTie"]
 LEVEL = "proof"
 CLAUSES = [
     ("pad: events untouched, duration = max(old, n)", ["SCoda.C18.pad_events", "SCoda.C18.pad_duration", "SCoda.C18.pad_ok"]),
@@ -23,6 +23,9 @@ CLAUSES = [
      ["SCoda.Gaps.pad_seq", "SCoda.Gaps.setChannel_seq", "SCoda.Gaps.scale_seq", "SCoda.Gaps.cutoff_seq", "SCoda.Gaps.scale_default_eq",
       "SCoda.Gaps.scale_default_statement_false", "SCoda.Gaps.cutoff_r0_statement_false",
       "SCoda.WrapTie.pad_eq", "SCoda.WrapTie.setChannel_eq", "SCoda.WrapTie.scale_eq", "SCoda.WrapTie.cutoff_eq"]),
+    ("TIE BY TRANSLATION, view level: RelativeSequence.pad, set_channel and scale (integer factor >= 1) as re-translated from the source on every run equal the models "
+     "the clauses above are about (cutoff stores through an alias and stays tied by correspondence)",
+     ["SCoda.ViewTie.pad_eq", "SCoda.ViewTie.setChannel_eq", "SCoda.ViewTie.scaleRel_eq"]),
 ]
 RULE = ("well-formed multi-channel sequences (<=8 notes, ticks<200) x n in {below, at, above duration} / (m, r<=m) / k in 1..8 / "
         "channel 0..15; non-trivial = at least one note and for cutoff a note longer than m")
